@@ -277,6 +277,16 @@ structure Facts where
   shortHeaderIsEOF : Tri
   tornDataIsEOF : Tri
   truncatesTornTail : Tri
+  /-- `WriteBuffer.Add` reports full at `math.MaxUint16` entries: a fault-free writer never hands
+      `CompressEntries` more than the 16-bit count field holds (the bound of `MkOk`) -/
+  flushesAtCountBound : Tri
+  /-- the reader assumptions of the model (established by C04): a payload that is not the one
+      written fails the checksum; the decoded length and the entry count are checked -/
+  validatesCrc : Tri
+  crcBeforeDecompress : Tri
+  validatesULen : Tri
+  boundsDecodedLen : Tri
+  parseConsumesAll : Tri
   deriving Repr
 
 def cfgOf (f : Facts) : Cfg :=
@@ -290,7 +300,8 @@ def modelApplies (f : Facts) : Bool :=
   f.cliUsesCompactorOnly.isYes && f.triggersUseLocked.isYes && f.loadUsesFromIndex.isYes &&
   f.rmTempLocked != .unknown && f.rmTempFromIndex != .unknown && f.rmTempCompactor != .unknown &&
   f.loadCleansTemp != .unknown && f.closeFsyncs != .unknown &&
-  f.shortHeaderIsEOF != .unknown && f.tornDataIsEOF != .unknown && f.truncatesTornTail != .unknown
+  f.shortHeaderIsEOF != .unknown && f.tornDataIsEOF != .unknown && f.truncatesTornTail != .unknown &&
+  f.flushesAtCountBound.isYes && f.validatesCrc.isYes && f.validatesULen.isYes && f.parseConsumesAll.isYes
 
 def findings (f : Facts) : List String :=
   (if EP.rmFirst (cfgOf f) .locked then [] else ["C03-locked-stale-temp"]) ++
